@@ -2,8 +2,8 @@
 import gens
 
 ID = "C04"
-LEAN_MODULES = ["LexVerif.Props.C04", "LexVerif.Props.TablesUtil"]
-GEN = ["util_tables"]
+LEAN_MODULES = ["LexVerif.Props.C04", "LexVerif.Props.TablesUtil", "LexVerif.Props.Literals.ParseInteger", "LexVerif.Props.Literals.Util"]
+GEN = ["util_tables", "literals"]
 TRUSTED = [
     "Lean 4.33.0 kernel; axioms of each theorem listed under coverage.theorems",
     "correspondence harness (harness/src/bin/run.rs) and generators (gens.py): differential testing, bounded by generator quality",
